@@ -34,7 +34,9 @@ def orig_roles(rel, facts, name, tup):
     """Original field tuple keyed by the ISA roles of mnemonic `name`."""
     spec = oracle.RV32.get(name)
     cls, attrs = rel.item_fields(name)
-    args_attrs = facts.args_attrs(cls) or []
+    args_attrs = facts.args_attrs(cls) if cls else None
+    if args_attrs is None:
+        raise AnalysisError('{}: which attributes args() of {} returns is not understood'.format(name, cls))
     out = {}
     if spec is None:
         return out
